@@ -342,6 +342,18 @@ func scenarios() []*explore.Scenario {
 			},
 		}
 	}
+	// S2e: the same cluster root spelled with and without a trailing slash (the leader path is
+	// normalised by path.Join; the window key must be as well, or the two spellings count separately)
+	spelling := func(w *world) ([]string, []func()) {
+		cl := w.st.Client()
+		a := id.NewAllocator(cl, root, "a")
+		a2 := id.NewAllocator(cl, root+"/", "a")
+		return []string{"a", "a/"}, []func(){
+			func() { w.alloc("a", a); w.alloc("a", a) },
+			func() { w.alloc("a", a2); w.alloc("a", a2) },
+		}
+	}
+	mk("root-spelling", false, 1, 0, "", spelling)
 	mk("fn/two-roots", false, 2, 0, "quick", twoRoots)
 	mk("fn/two-roots@3", false, 3, 0, "thorough", twoRoots)
 	// S3: three members, leader record absent for a while.
